@@ -146,7 +146,9 @@ def run_job(job):
                 continue        # the faulted run took another path before reaching call k (nothing was injected)
             if bad is None:
                 j = P.judge(w)
-                if not j["converged"]:
+                if j["busy"] and not base.get("busy"):
+                    bad = ("busy", {"pending": j["busy"]})
+                elif not j["converged"]:
                     bad = ("diverge", j["trees"])
                 elif j["lost"]:
                     bad = ("lost:" + ",".join(j["lost"]), j["trees"])
